@@ -197,6 +197,8 @@ struct VirtualSocket<T, Env> {
 
     drop_guard: DropGuardSendBeforeDeath<ControlRequest>,
     parent_span: Option<tracing::Span>,
+    #[cfg(ikatson_librqbit_utp_verif)]
+    verif_id: crate::verif::VsockId,
 
     #[cfg(feature = "per-connection-metrics")]
     metrics: crate::metrics::PerConnectionMetrics,
@@ -878,6 +880,16 @@ impl<T: Transport, Env: UtpEnvironment> VirtualSocket<T, Env> {
             remaining -= payload_size;
             remote_window_remaining -= payload_size;
             trace!(bytes = payload_size, "segmented");
+            #[cfg(ikatson_librqbit_utp_verif)]
+            crate::verif::emit(|| crate::verif::VerifEvent::Segmented {
+                id: self.verif_id.clone(),
+                payload_size,
+                is_mtu_probe,
+                segment_size: ss as usize,
+                mss: min_ss as usize,
+                window_limited: max_payload_size < ss as usize,
+                data_in_flight: self.user_tx_segments.total_len_packets() > 1,
+            });
 
             if is_mtu_probe {
                 trace!(payload_size, "MTU probing, not segmenting more data");
@@ -906,6 +918,11 @@ impl<T: Transport, Env: UtpEnvironment> VirtualSocket<T, Env> {
         } else {
             trace!("just_before_death: no error");
         }
+        #[cfg(ikatson_librqbit_utp_verif)]
+        crate::verif::emit(|| crate::verif::VerifEvent::Death {
+            id: self.verif_id.clone(),
+            error: error.map(|e| format!("{e:#}")),
+        });
 
         if let Some(e) = error {
             self.user_rx.enqueue_error(format!("{e:#}"));
@@ -1250,6 +1267,8 @@ impl<T: Transport, Env: UtpEnvironment> VirtualSocket<T, Env> {
                 self.congestion_controller
                     .set_mss(self.segment_sizes.mss() as usize);
 
+                #[cfg(ikatson_librqbit_utp_verif)]
+                let verif_rx = (hdr.seq_nr.0, msg.payload().len());
                 match self.user_rx.add_remove(cx, msg, offset as usize)? {
                     AssemblerAddRemoveResult::Consumed {
                         sequence_numbers,
@@ -1266,6 +1285,8 @@ impl<T: Transport, Env: UtpEnvironment> VirtualSocket<T, Env> {
                             debug_every_ms!(500, header=%hdr.short_repr(), offset, ?self.last_consumed_remote_seq_nr, "out of order");
                         }
 
+                        #[cfg(ikatson_librqbit_utp_verif)]
+                        self.verif_rx_data(verif_rx, "consumed", sequence_numbers);
                         self.restart_remote_inactivity_timer();
                         self.last_consumed_remote_seq_nr += sequence_numbers as u16;
                         self.consumed_but_unacked_bytes =
@@ -1275,10 +1296,14 @@ impl<T: Transport, Env: UtpEnvironment> VirtualSocket<T, Env> {
                     AssemblerAddRemoveResult::Unavailable(_) => {
                         debug_every_ms!(500, header=%hdr.short_repr(), offset,
                             ?self.last_consumed_remote_seq_nr, "cannot reassemble message, ignoring it");
+                        #[cfg(ikatson_librqbit_utp_verif)]
+                        self.verif_rx_data(verif_rx, "unavailable", 0);
                     }
                     AssemblerAddRemoveResult::AlreadyPresent => {
                         debug_every_ms!(500, header=%hdr.short_repr(), offset,
                             ?self.last_consumed_remote_seq_nr, "already present in assembler");
+                        #[cfg(ikatson_librqbit_utp_verif)]
+                        self.verif_rx_data(verif_rx, "already_present", 0);
                     }
                 }
 
@@ -1566,6 +1591,11 @@ impl<T: Transport, Env: UtpEnvironment> VirtualSocket<T, Env> {
 impl<T, E> Drop for VirtualSocket<T, E> {
     fn drop(&mut self) {
         METRICS.live_virtual_sockets.decrement(1);
+        #[cfg(ikatson_librqbit_utp_verif)]
+        crate::verif::emit(|| crate::verif::VerifEvent::VsockDropped {
+            id: self.verif_id.clone(),
+            snap: self.verif_snapshot(),
+        });
         self.user_tx.mark_vsock_closed();
         self.user_rx.mark_vsock_closed();
     }
@@ -1780,11 +1810,23 @@ impl<T: Transport, E: UtpEnvironment> UtpStreamStarter<T, E> {
 
             socket: socket.clone(),
             recovery: Recovery::default(),
+            #[cfg(ikatson_librqbit_utp_verif)]
+            verif_id: crate::verif::VsockId::new(
+                socket.bind_addr(),
+                remote,
+                conn_id_recv.0,
+                conn_id_send.0,
+                matches!(state, VirtualSocketState::SynReceived),
+            ),
             #[cfg(feature = "per-connection-metrics")]
             metrics: crate::metrics::PerConnectionMetrics::new(socket.bind_addr(), remote),
         };
 
         METRICS.live_virtual_sockets.increment(1);
+        #[cfg(ikatson_librqbit_utp_verif)]
+        crate::verif::emit(|| crate::verif::VerifEvent::VsockCreated {
+            id: vsock.verif_id.clone(),
+        });
 
         let stream = UtpStream::new(read_half, write_half, vsock.remote);
         UtpStreamStarter {
@@ -1915,6 +1957,104 @@ impl<T: Transport, Env: UtpEnvironment> std::future::Future for VirtualSocket<T,
     type Output = crate::Result<()>;
 
     fn poll(self: std::pin::Pin<&mut Self>, cx: &mut std::task::Context<'_>) -> Poll<Self::Output> {
+        #[cfg(ikatson_librqbit_utp_verif)]
+        return self.get_mut().verif_poll(cx);
+        #[cfg(not(ikatson_librqbit_utp_verif))]
         self.get_mut().poll(cx)
+    }
+}
+
+// Verification hooks: read-only snapshot of the connection state. See src/verif.rs.
+#[cfg(ikatson_librqbit_utp_verif)]
+impl<T, Env> VirtualSocket<T, Env> {
+    fn verif_snapshot(&self) -> crate::verif::VsockSnapshot {
+        let (our_fin, remote_fin) = match self.state {
+            VirtualSocketState::FinWait1 { our_fin } => (Some(our_fin.0), None),
+            VirtualSocketState::LastAck {
+                our_fin,
+                remote_fin,
+            } => (Some(our_fin.0), Some(remote_fin.0)),
+            _ => (None, None),
+        };
+        let rx = self.user_rx.verif_snapshot();
+        let mss = self.segment_sizes.mss() as usize;
+        let advertised_window_now = {
+            let wnd = if rx.reader_dropped {
+                0
+            } else {
+                rx.last_remaining_rx_window.saturating_sub(rx.ooq_len_bytes)
+            };
+            if wnd < mss { 0 } else { (wnd - wnd % mss) as u32 }
+        };
+        crate::verif::VsockSnapshot {
+            state: self.state.name(),
+            our_fin,
+            remote_fin,
+            seq_nr: self.seq_nr.0,
+            last_sent_seq_nr: self.last_sent_seq_nr.0,
+            last_consumed_remote_seq_nr: self.last_consumed_remote_seq_nr.0,
+            last_sent_ack_nr: self.last_sent_ack_nr.0,
+            last_sent_window: self.last_sent_window,
+            last_remote_window: self.last_remote_window,
+            advertised_window_now,
+            consumed_but_unacked_bytes: self.consumed_but_unacked_bytes,
+            rto_retransmissions: self.rto_retransmissions,
+            inbound_channel_len: self.rx.len(),
+            min_ss: self.segment_sizes.mss(),
+            max_ss: self.segment_sizes.max_ss(),
+            rto: self.rtte.retransmission_timeout(),
+            rtt: self.rtte.roundtrip_time(),
+            cwnd: self.congestion_controller.window(),
+            ssthresh: self.congestion_controller.sshthresh(),
+            recovery: self.recovery.verif_phase_name(),
+            flight_size: self
+                .user_tx_segments
+                .calc_flight_size(self.last_sent_seq_nr),
+            unsegmented_data: self.this_poll.unsegmented_data,
+            transport_pending: self.this_poll.transport_pending,
+            nagle: self.socket_opts.nagle,
+            now: Some(self.this_poll.now),
+            timers: crate::verif::TimersSnapshot {
+                retransmit: self.timers.retransmit.poll_at(),
+                ack_delay: self.timers.ack_delay_timer.poll_at(),
+                remote_inactivity: self.timers.remote_inactivity_timer.poll_at(),
+                recovery_pipe_expiry: self.timers.recovery_pipe_expiry.poll_at(),
+                syn_ack_resend: self.timers.syn_ack_resend.poll_at(),
+            },
+            rx,
+            tx: self.user_tx.verif_snapshot(),
+            segments: self.user_tx_segments.verif_snapshot(),
+        }
+    }
+
+    fn verif_rx_data(&self, (seq_nr, len): (u16, usize), outcome: &'static str, advanced: usize) {
+        crate::verif::emit(|| crate::verif::VerifEvent::RxData {
+            id: self.verif_id.clone(),
+            seq_nr,
+            len,
+            outcome,
+            advanced,
+        });
+    }
+}
+
+#[cfg(ikatson_librqbit_utp_verif)]
+impl<T: Transport, Env: UtpEnvironment> VirtualSocket<T, Env> {
+    fn verif_poll(&mut self, cx: &mut std::task::Context<'_>) -> Poll<crate::Result<()>> {
+        crate::verif::emit(|| crate::verif::VerifEvent::PollStart {
+            id: self.verif_id.clone(),
+            snap: self.verif_snapshot(),
+        });
+        let result = self.poll(cx);
+        crate::verif::emit(|| crate::verif::VerifEvent::PollEnd {
+            id: self.verif_id.clone(),
+            snap: self.verif_snapshot(),
+            finished: match &result {
+                Poll::Pending => None,
+                Poll::Ready(Ok(())) => Some(None),
+                Poll::Ready(Err(e)) => Some(Some(format!("{e:#}"))),
+            },
+        });
+        result
     }
 }
